@@ -300,6 +300,13 @@ def check_send_events(rep, ctx, tier):
                 over = z3.UGE(sz.ret.scalar("usize"), z3.BitVecVal(65536, 64))
                 ok = (bool(rem) or implied(r, z3.Not(over))) and same_origin(sz.rargs[0], snd.rargs[0])      # ... measured on the very batch that is sent
                 rep.add(Query("send_events path %d: what is sent measured < 64 KiB, or lost its last event after measuring >= 64 KiB" % i, "holds" if ok else "violated", "", 0, "mirsym+z3", key="C18.batch.size", reproduced=None))
+        # "dropped rather than blocking the rest": the function returns only when its work list is empty - every remaining event gets its turn
+        if r.status == "return":
+            ie = [e for e in ev if e.kind == "call" and e.callee.endswith("Vec::is_empty")]
+            if ie:
+                done = implied(r, ie[-1].ret.scalar("bool"))
+                rep.add(Query("send_events path %d: returns only when no event is left on the work list" % i, "holds" if done else "violated",
+                              "" if done else "the path leaves the loop with events still queued (they are never uploaded, their file is removed)", 0, "mirsym+z3", key="C18.batch.drains", reproduced=None))
         # progress: between two sends at least one event was popped
         for a, b in zip(sends, sends[1:]):
             mid = [e for e in pops if ev.index(a) < ev.index(e) < ev.index(b)]
